@@ -20,3 +20,7 @@ def run(ctx):
     run_kernels(ctx, ["K0", "K15", "K14"], "C18")
     records = collect_walk_effects(ctx)
     ctx.guard(case_taint_rule, ctx, "C18.case-taint", records)
+    from ..rules_misc import k21_match_overrides
+    ctx.guard(k21_match_overrides, ctx, "C18")
+    from ..rules_misc import text_consumers_rule
+    ctx.guard(text_consumers_rule, ctx, "C18.text-consumers")
